@@ -32,7 +32,12 @@ package bech32
 
 //@ func bech32.bech32Checksum
 //@   ensures len(result) == 6 && freshornil(result)
-//@   ensures forall j :: 0 <= j && j < 6 ==> result[j] == u8((bech32.cksum(hrp, len(hrp), data, len(data)) >> u64(5 * (5 - j))) & 31)
+//@   ensures result[0] == u8((bech32.cksum(hrp, len(hrp), data, len(data)) >> 25) & 31)
+//@   ensures result[1] == u8((bech32.cksum(hrp, len(hrp), data, len(data)) >> 20) & 31)
+//@   ensures result[2] == u8((bech32.cksum(hrp, len(hrp), data, len(data)) >> 15) & 31)
+//@   ensures result[3] == u8((bech32.cksum(hrp, len(hrp), data, len(data)) >> 10) & 31)
+//@   ensures result[4] == u8((bech32.cksum(hrp, len(hrp), data, len(data)) >> 5) & 31)
+//@   ensures result[5] == u8((bech32.cksum(hrp, len(hrp), data, len(data)) >> 0) & 31)
 //@   modifies nothing
 //@   uses b32_fold_is_foldc
 //@   opaque bech32.step
@@ -43,10 +48,8 @@ package bech32
 //@   assert after append#2: len(values) == 2*len(hrp) + 7 + len(data) && forall k :: 0 <= k && k < len(values) - 6 ==> values[k] == bech32.at(hrp, len(hrp), data, k)
 //@   assert after append#2: forall k :: len(values) - 6 <= k && k < len(values) ==> values[k] == 0
 //@   assert after bech32Polymod#1: bech32.fold(1, values, len(values) - 6) == bech32.foldc(1, hrp, len(hrp), data, len(values) - 6)
-//@   loop 2 invariant 0 <= i && i <= 6 && len(res) == i && freshornil(res)
-//@   loop 2 invariant i64(polymod) == bech32.cksum(hrp, len(hrp), data, len(data))
-//@   loop 2 invariant forall j :: 0 <= j && j < i ==> res[j] == u8((i64(polymod) >> u64(5 * (5 - j))) & 31)
-//@   loop 2 decreases 6 - i
+//@   loop 2 unroll 6
+//@   assert after append#3: i64(polymod) == bech32.cksum(hrp, len(hrp), data, len(data))
 
 //@ func bech32.toBytes
 //@   ensures err == nil ==> len(result0) == len(chars) && freshornil(result0)
